@@ -104,7 +104,10 @@ def alpha(size, tier):
         steps = [None, 1, 2]
     A = [["int", i] for i in range(-size, size)]
     A += [["slice", a, b, s] for a in ends for b in ends for s in steps]
-    A += [["tensor", [0]], ["tensor", [size - 1, 0]], ["tensor", [-1, 0, 0]], ["ellipsis"]]
+    A += [["tensor", [0]], ["tensor", [size - 1, 0]], ["tensor", [-1, 0, 0]]]
+    # the other index objects torch accepts for `mean[idx]`: numpy integers, 0-dim tensors, boolean masks, python lists
+    A += [["npint", size - 1], ["tensor0", 0], ["mask", [i != 1 for i in range(size)]], ["list", [size - 1, 0]]]
+    A += [["ellipsis"]]
     return A
 
 
@@ -115,6 +118,15 @@ def mkidx(e):
         return slice(e[1], e[2], e[3])
     if e[0] == "tensor":
         return torch.tensor(e[1], dtype=torch.long)
+    if e[0] == "npint":
+        import numpy
+        return numpy.int64(e[1])
+    if e[0] == "tensor0":
+        return torch.tensor(e[1], dtype=torch.long)
+    if e[0] == "mask":
+        return torch.tensor(e[1], dtype=torch.bool)
+    if e[0] == "list":
+        return list(e[1])
     return Ellipsis
 
 
@@ -340,8 +352,9 @@ def run_getitem(cell, g, fails, feats):
         full = (first,) + tuple(tail)
         if sum(1 for e in full if e[0] == "ellipsis") > 1:
             continue
-        if sum(1 for e in full if e[0] == "tensor") > 1:
-            continue
+        adv = [e for e in full if e[0] in ("tensor", "list", "mask")]
+        if len(adv) > 2 or (len(adv) == 2 and (any(e[0] == "mask" for e in adv) or len(adv[0][1]) != len(adv[1][1]))):
+            continue  # at most two advanced indices, paired element by element (as in mean[bi, ei])
         variants = [full]
         if len(full) > 1 and full[-1][0] == "slice" and full[-1][1:] == [None, None, None]:
             variants.append(full[:-1])  # batch-only index
@@ -356,7 +369,8 @@ def run_getitem(cell, g, fails, feats):
             if P.dim() < 1 or P.numel() == 0:
                 continue
             kinds = "/".join(e[0] for e in var)
-            f2 = dict(feats, idx_kinds=kinds, last_kind=var[-1][0] if len(var) == len(shape) else "batch-only")
+            f2 = dict(feats, idx_kinds=kinds, last_kind=var[-1][0] if len(var) == len(shape) else "batch-only",
+                      paired_adv=sum(1 for e in var if e[0] in ("tensor", "list", "mask")) == 2)
             try:
                 r = d[idx]
                 rm, rc = r.mean, r.covariance_matrix
